@@ -8,13 +8,15 @@
 (*   Inv_Unquoted    -u changes the output only for string results         *)
 (*   Inv_Outcome     the step machine ends in the outcome function         *)
 (* DIE_PRINTS: negative control (a die! that has already printed partial   *)
-(* output on stdout).                                                      *)
+(* output on stdout).  TEXT_ONLY_ARGS: negative control (the tool before   *)
+(* the repair of finding F20: arguments that are not text panic).          *)
 (***************************************************************************)
 EXTENDS Cli
 CONSTANT DIE_PRINTS
 VARIABLES inv, lib, readinput
 
-Invs == [exprsrc : {"arg", "file", "missingfile"}, inputsrc : {"stdin", "file", "devstdin", "missingfile"}, unquoted : BOOLEAN, ast : BOOLEAN]
+Invs == [exprsrc : {"arg", "file", "missingfile", "notext"}, inputsrc : {"stdin", "file", "devstdin", "missingfile"}, unquoted : BOOLEAN, ast : BOOLEAN,
+         bytespath : BOOLEAN]
 Libs == [stage : {"compile", "json", "search", "ok"}, is_string : BOOLEAN]
 
 Init == inv \in Invs /\ lib \in Libs /\ readinput = FALSE /\ CInit
@@ -24,7 +26,7 @@ Spec == Init /\ [][Next]_<<inv, lib, readinput, phase, stdout, stderr, exit>>
 
 Final == phase \in {"done", "dead"}
 Out == IF DIE_PRINTS /\ phase = "dead" /\ lib.stage = "search" THEN "pretty" ELSE stdout
-AllOk == inv.exprsrc # "missingfile" /\ lib.stage # "compile" /\ (inv.ast \/ (inv.inputsrc # "missingfile" /\ lib.stage = "ok"))
+AllOk == inv.exprsrc \notin {"missingfile", "notext"} /\ lib.stage # "compile" /\ (inv.ast \/ (inv.inputsrc # "missingfile" /\ lib.stage = "ok"))
 Inv_Discipline == Final => /\ (exit = 0 <=> AllOk)
                            /\ (exit # 0 => Out = "none" /\ stderr = "message")
                            /\ (exit = 0 => Out # "none" /\ stderr = "empty")
